@@ -48,6 +48,16 @@ def run(run):
     _r4_buffer(run)
     _r6_merger(run)
     _r7_masked(run)
+    # "fully masked" must mean what the buffers' undefined-value convention says, for every mode (decided by C15's rules)
+    from . import C15 as c15
+    from . import common as _common
+
+    def conv(sub):
+        members = c15._enum_members(sub.project)
+        if len(members) >= 8:
+            chains = c15._r1_chains(sub, members)
+            c15._r2_conventions(sub, members, chains)
+    _common.delegate(run, "C02.R7", "C15", conv, only_rules={"C15.R2"}, note="premise of 'an all-undefined parent is removed, not stored'")
 
 
 def _slice_half(node, consts=None):
